@@ -88,16 +88,17 @@ func goroutines() gstate {
 }
 
 type ptxn struct {
-	keys   []int
-	txn    *tikv.KVTxn
-	held   *latch.Lock // driver-held lock (direct client of the scheduler) instead of a KVTxn
-	direct bool
-	warm   bool // the driver's warm-up transaction (not part of the program text)
-	start  uint64
-	status byte // N, B (Commit / Lock in flight), K/S (direct lock returned), U
-	done   atomic.Bool
-	res    string
-	commit uint64
+	keys             []int
+	txn              *tikv.KVTxn
+	held             *latch.Lock // driver-held lock (direct client of the scheduler) instead of a KVTxn
+	direct           bool
+	warm             bool // the driver's warm-up transaction (not part of the program text)
+	start            uint64
+	status           byte // N, B (Commit / Lock in flight), K/S (direct lock returned), U
+	done             atomic.Bool
+	res              string
+	retSeen, unlSeen bool // client actions already reported (CA lines)
+	commit           uint64
 }
 
 type prog struct {
@@ -309,6 +310,37 @@ func (p *prog) settle() bool {
 	return true
 }
 
+// client actions of the consumer, for the extracted client_okb. The return of Lock() inside Commit is seen as the
+// return of Commit with its verdict; UnLock is INFERRED: Commit has returned and at quiescence no node names the lock
+// as holder (for a lock that owned nothing — stale at its first key — this is vacuous: such an UnLock cannot be observed).
+func (p *prog) clientActions() {
+	held := map[uint64]bool{}
+	for _, sl := range p.lat.VSnapshot() {
+		for _, n := range sl.Nodes {
+			if n.Holder != nil {
+				held[n.Holder.VStartTS()] = true
+			}
+		}
+	}
+	for i, t := range p.txns {
+		if t.status == 'N' || !t.done.Load() {
+			continue
+		}
+		if !t.retSeen {
+			t.retSeen = true
+			st := 0
+			if (t.direct && t.held.IsStale()) || (!t.direct && t.res == "stale") {
+				st = 1
+			}
+			fmt.Fprintf(out, "CA\tret\t%d\t%d\n", i, st)
+		}
+		if !t.direct && !t.unlSeen && !held[t.start] {
+			t.unlSeen = true
+			fmt.Fprintf(out, "CA\tunlock\t%d\t%d\n", i, t.commit)
+		}
+	}
+}
+
 func (p *prog) tsLine(i int) {
 	t := p.txns[i]
 	fmt.Fprintf(out, "TS\t%d\t%d\t%d\t%s\n", i, t.start, t.commit, ints(t.keys))
@@ -373,6 +405,7 @@ func (p *prog) run(actions []string) {
 				continue
 			}
 			t.status = 'B'
+			fmt.Fprintf(out, "CA\tlock\t%d\t%d\n", i, t.start)
 			if t.direct {
 				go p.lockWorker(t)
 			} else {
@@ -393,6 +426,7 @@ func (p *prog) run(actions []string) {
 			for j := range p.txns {
 				p.tsLine(j)
 			}
+			p.clientActions()
 			p.emit("L"+strconv.Itoa(i), res)
 		case 'u', 'z':
 			if !t.direct || (t.status != 'K' && t.status != 'S') {
@@ -403,6 +437,7 @@ func (p *prog) run(actions []string) {
 			}
 			t.held.SetCommitTS(t.commit)
 			t.status = 'U'
+			fmt.Fprintf(out, "CA\tunlock\t%d\t%d\n", i, t.commit)
 			p.sched.UnLock(t.held)
 			if !p.settle() {
 				return
@@ -410,6 +445,7 @@ func (p *prog) run(actions []string) {
 			for j := range p.txns {
 				p.tsLine(j)
 			}
+			p.clientActions()
 			p.emit("U"+strconv.Itoa(i), "-")
 		}
 		// oracle on the implementation: with nobody in flight no latch may be held, nobody may wait
